@@ -24,7 +24,7 @@ def _tlc(args, env, cwd, heap="1500m", timeout=3600, parallel_gc=False):
     return p.returncode, p.stdout
 
 
-def judge(events, zones, workdir, tag="t", module="Trace"):
+def judge(events, zones, workdir, tag="t", module="Trace", locales=None):
     """Validate `events` (list of dicts, each with a unique 'id') against the spec.
     Returns {id: {"c": labels, "v": failed clauses}} and TLC statistics."""
     os.makedirs(workdir, exist_ok=True)
@@ -37,7 +37,7 @@ def judge(events, zones, workdir, tag="t", module="Trace"):
     meta = os.path.join(workdir, tag + ".meta")
     t0 = time.time()
     rc, out = _tlc(["-workers", "1", "-metadir", meta, "-noGenerateSpecTE", "-config", module + ".cfg",
-                    module + ".tla"], {"PV_TRACE": tf, "PV_ZONES": zf}, SPEC)
+                    module + ".tla"], {"PV_TRACE": tf, "PV_ZONES": zf, "PV_LOCALES": locales or ""}, SPEC)
     shutil.rmtree(meta, ignore_errors=True)
     res = {}
     consumed = None
